@@ -27,7 +27,9 @@ example : fromCivil 1 1 1 = 0 ∧ fromCivil 9999 12 31 + 1 = maxDay ∧ toCivil 
 
 /-- **C17 (whole days).**  `I + n` / `I - n` move the date by exactly `n` days and keep the time
     of day, and are the overflow error exactly when the result leaves years 1..9999;
-    `(I + n) - n = I`; `I + n` is the same as `I + n·86400 s`; and `(I + n) - I` is `n` days. -/
+    `(I + n) - n = I`; `I + n` is the same as `I + n·86400 s` (for the exact number of seconds, and
+    for the integer quantity `n·86400 s` as the registered function receives it); and `(I + n) - I`
+    is `n` days. -/
 theorem C17_days (I : Inst) (n : Int) (hI : I.valid) :
     (instantPlusInt I n =
         if 0 ≤ I.day + n ∧ I.day + n < (maxDay : Int) then .ok ⟨I.day + n, I.us⟩ else .error .overflow)
@@ -35,9 +37,16 @@ theorem C17_days (I : Inst) (n : Int) (hI : I.valid) :
         if 0 ≤ I.day - n ∧ I.day - n < (maxDay : Int) then .ok ⟨I.day - n, I.us⟩ else .error .overflow)
     ∧ (∀ R, instantPlusInt I n = .ok R → instantMinusInt R n = .ok I)
     ∧ plusSeconds I ((n * 86400 : Int) : Rat) = instantPlusInt I n
+    ∧ (∀ dim, isTimeDim dim = true → (n * 86400).natAbs ≤ 9007199254740992 →
+        instantPlusQuantity I (.int (n * 86400)) dim = instantPlusInt I n)
     ∧ (∀ R, instantPlusInt I n = .ok R → diffUs R I = n * 86400 * 1000000) := by
   have hp := instantPlusInt_eq I n hI
-  refine ⟨hp, instantMinusInt_eq I n hI, ?_, ?_, ?_⟩
+  have h4 : plusSeconds I ((n * 86400 : Int) : Rat) = instantPlusInt I n := by
+    unfold plusSeconds instantPlusInt tdDays
+    rw [tdSecondsRat_int]
+    have e : n * 86400 * 1000000 = n * (usPerDay : Int) := by simp only [usPerDay]; push_cast; ring
+    rw [e]
+  refine ⟨hp, instantMinusInt_eq I n hI, ?_, h4, ?_, ?_⟩
   · intro R hR
     rw [hp] at hR
     split at hR
@@ -49,10 +58,8 @@ theorem C17_days (I : Inst) (n : Int) (hI : I.valid) :
       simp only [e]
       rw [if_pos ⟨hI.1, hI.2.1⟩]
     · cases hR
-  · unfold plusSeconds instantPlusInt tdDays
-    rw [tdSecondsRat_int]
-    have e : n * 86400 * 1000000 = n * (usPerDay : Int) := by simp only [usPerDay]; push_cast; ring
-    rw [e]
+  · intro dim hd hs
+    rw [instantPlusQuantity_int I _ dim hd hs, h4]
   · intro R hR
     rw [hp] at hR
     split at hR
@@ -103,15 +110,17 @@ example : instantMinusQuantity ⟨737454, 0⟩ (.frac (1/1000)) [0, 0, 1, 0, 0, 
     double of exact value `r`: whole seconds are exact; in general the result is the
     round-half-even of `trunc(r)·10⁶ + p`, where `p` is the double nearest to `10⁶·frac(r)`
     (CPython multiplies in double arithmetic); when that product is exact the result is
-    round-half-even of `r·10⁶`; and round-half-even is within half a microsecond. -/
+    round-half-even of `r·10⁶`; round-half-even is within half a microsecond; and a quantity of an
+    integer number `s` of seconds (|s| ≤ 2⁵³) is exactly `s·10⁶` microseconds. -/
 theorem C17_span_rounding :
     (∀ s : Int, tdSecondsRat (s : Rat) = tdNorm (s * 1000000))
     ∧ (∀ r p : Rat, dbl (1000000 * (r - (truncRat r : Rat))) = some p →
         tdSecondsRat r = tdNorm (Num.roundHalfEven ((truncRat r * 1000000 : Int) + p)))
     ∧ (∀ r : Rat, dbl (1000000 * (r - (truncRat r : Rat))) = some (1000000 * (r - (truncRat r : Rat))) →
         tdSecondsRat r = tdNorm (Num.roundHalfEven (r * 1000000)))
-    ∧ (∀ q : Rat, |(Num.roundHalfEven q : Rat) - q| ≤ 1/2) := by
-  refine ⟨tdSecondsRat_int, tdSecondsRat_spec, ?_, roundHalfEven_near⟩
+    ∧ (∀ q : Rat, |(Num.roundHalfEven q : Rat) - q| ≤ 1/2)
+    ∧ (∀ s : Int, s.natAbs ≤ 9007199254740992 → spanUs (.int s) = tdNorm (s * 1000000)) := by
+  refine ⟨tdSecondsRat_int, tdSecondsRat_spec, ?_, roundHalfEven_near, spanUs_int⟩
   intro r h
   rw [tdSecondsRat_spec r _ h]
   congr 2; push_cast; ring
